@@ -195,15 +195,22 @@ def run_case(case, ctx):
     n = len(xr) + len(yr)
     budget = 60 * n + 1500
     codes = [dictable.join, dictable.xor, dictable._listby]
+    y_arg = y
+    if case.get('other_as') == 'dict' and not case.get('same_object'):
+        y_arg = dict(y)                      # the right operand as a plain dict of columns
+        ctx.cls('right_operand_as_plain_dict')
+    elif case.get('other_as') == 'records' and not case.get('same_object') and len(yr):
+        y_arg = [dict(r_) for r_ in y]       # ... or as a list of records
+        ctx.cls('right_operand_as_records')
     with StepBudget(codes, budget) as sb:
         if op == 'join':
-            st, res = ctx.call(x.join, y, lcols, rcols, mode)
+            st, res = ctx.call(x.join, y_arg, lcols, rcols, mode)
         elif op == 'mul':
-            st, res = ctx.call(lambda: x * y)
+            st, res = ctx.call(lambda: x * y_arg)
         elif op == 'xor':
-            st, res = ctx.call(x.xor, y, lcols, rcols) if not case.get('xmode') else ctx.call(x.xor, y, lcols, rcols, case['xmode'])
+            st, res = ctx.call(x.xor, y_arg, lcols, rcols) if not case.get('xmode') else ctx.call(x.xor, y_arg, lcols, rcols, case['xmode'])
         elif op == 'div':
-            st, res = ctx.call(lambda: x / y)
+            st, res = ctx.call(lambda: x / y_arg)
         else:
             raise HarnessError(op)
     ctx.maxstat('max_steps_over_budget', sb.count / float(budget))
@@ -426,6 +433,8 @@ def gen_case(rng, maxrows):
         case.pop('phase2', None)
     if rng.random() < 0.08:
         case = rename_columns(case)
+    if rng.random() < 0.1 and y:
+        case['other_as'] = rng.choice(['dict', 'records'])
     return case
 
 
